@@ -743,6 +743,9 @@ func main() {
 			fmt.Fprintf(&out, "(* internal/header.go: var %s *)\nDefinition src_%s : bytes * bytes := (%s, %s).\n\n", n, n, coqString(*v.s), coqString(*l.s))
 		}
 	})
+	group("SrcInval.v", func() {
+		translateInvalidator(intByName, intFiles, intCE, &out)
+	})
 	group("SrcEffects.v", func() {
 		mk := func(vars map[string]term, facts map[string]bool) func() *eenv {
 			return func() *eenv {
